@@ -250,11 +250,18 @@ def oracle_element(case, res):
     got = elt_names_tree(t)
     if got != names:
         if flat_names(got) != flat_names(names):
-            lost = [n for n in flat_names(names) if n not in flat_names(got)]
+            lost, have = [], list(flat_names(got))
+            for n in flat_names(names):
+                if n in have:
+                    have.remove(n)
+                else:
+                    lost.append(n)
             return "names of the created functions %s are not the expanded names %s (lost: %s)" % (
                 short(got), short(names), lost)
         return "nesting of the created functions %s differs from the nesting of the names %s" % (short(got), short(names))
-    if case["fn"] == "element_of" and res["names_sympy"] != names:
+    # element_of expands without seq, elements_of with seq=True; on a nested pattern with seq the two
+    # expanders are known to differ (judged by oracle_expand), so sympy is the reference only elsewhere
+    if (case["fn"] == "element_of" or "s" in case["pat"]) and res["names_sympy"] != names:
         return "names %s differ from sympy.symbols %s" % (short(names), short(res["names_sympy"]))
     if "b" in case["space"]:
         for lf in leaves(t):
@@ -326,9 +333,13 @@ def candidates(case):
         for i in range(len(s)):
             yield dict(case, pat=pat_set(pat, path, lambda n, i=i, s=s: {"s": s[:i] + s[i + 1:]}))
     sp = case.get("space")
-    if sp and "prod" in sp and len(sp["prod"]) > 1:
-        for i in range(len(sp["prod"])):
-            yield dict(case, space={"prod": sp["prod"][:i] + sp["prod"][i + 1:]})
+    if sp and "prod" in sp:
+        for i, x in enumerate(sp["prod"]):
+            if "prod" in x:       # a factor that is a product: put its factors in its place
+                yield dict(case, space={"prod": sp["prod"][:i] + x["prod"] + sp["prod"][i + 1:]})
+        if len(sp["prod"]) > 1:
+            for i in range(len(sp["prod"])):
+                yield dict(case, space={"prod": sp["prod"][:i] + sp["prod"][i + 1:]})
 
 
 def shrink(case, same_failure):
@@ -385,16 +396,19 @@ def classify(case, res, msg):
             if run_A(case["pat"], "absent") == run_B(case["pat"], "absent"):
                 return {"kind": "nested-seq"}
         return {"kind": "expand-differs", "how": "error" if ("err" in res["A"] or "err" in res["B"]) else "names"}
-    if msg.startswith("names of the created functions"):
-        got, names = elt_names_tree(res["elt"]), res["names"]
+    if msg.startswith("names of the created functions") or msg.startswith("nesting"):
+        names = res["names"]
         if "prod" in case["space"] and "k" in names and len(names["items"]) > len(flat_spaces(case["space"])) \
-                and len(flat_names(got)) < len(flat_names(names)):
+                and "k" in res["elt"] and len(res["elt"]["items"]) == len(flat_spaces(case["space"])):
+            # zip(spaces, names) stopped at the shorter argument
             return {"kind": "zip-truncation"}
-        return {"kind": "element-names"}
-    if msg.startswith("nesting"):
-        return {"kind": "element-nesting"}
+        return {"kind": "element-names" if msg.startswith("names") else "element-nesting"}
     if "belong" in msg:
         return {"kind": "element-space"}
+    if "differ from sympy.symbols" in msg:
+        return {"kind": "element-names-vs-sympy"}
+    if "refused" in msg:
+        return {"kind": "element-refused"}
     return {"kind": "element-other"}
 
 
